@@ -368,12 +368,11 @@ func checkAddContentArgs(c *Ctx, p *core.Prog, fn *ssa.Function, what string) {
 				}
 			}
 			if ok && split != nil {
-				sc, isCall := split.(*ssa.Call)
-				if !isCall || core.StaticCalleeName(&sc.Call) != "strings.Split" {
+				src, isSplit := splitOperand(split)
+				if !isSplit {
 					ok, why = false, "the components are not taken from strings.Split of the relative path"
 				} else if core.FuncPkgPath(fn) == v2pkg {
 					// the string split must be the result of filepath.Rel
-					src := sc.Call.Args[0]
 					if ex, isEx := src.(*ssa.Extract); !isEx || !isCallTo(ex.Tuple, "path/filepath.Rel") {
 						ok, why = false, "the path that is split is not the result of filepath.Rel(dir, file)"
 					}
@@ -558,4 +557,34 @@ func checkDocsSingleWriter(c *Ctx, p *core.Prog) {
 	if bad == 0 {
 		c.R.OK("R12.7", "the corpus map is assigned only by NewClassifier", "v2/classifier.go", "no other store to Classifier."+rl.docs)
 	}
+}
+
+// splitOperand: v is strings.Split(x, sep), or the result of a helper of the repository that returns
+// strings.Split(<its parameter>, sep): returns x.
+func splitOperand(v ssa.Value) (ssa.Value, bool) {
+	call, ok := v.(*ssa.Call)
+	if !ok {
+		return nil, false
+	}
+	if core.StaticCalleeName(&call.Call) == "strings.Split" {
+		return call.Call.Args[0], true
+	}
+	g := call.Call.StaticCallee()
+	if g == nil || !core.InRepo(g) || len(g.Blocks) != 1 {
+		return nil, false
+	}
+	ret, ok := g.Blocks[0].Instrs[len(g.Blocks[0].Instrs)-1].(*ssa.Return)
+	if !ok || len(ret.Results) != 1 {
+		return nil, false
+	}
+	inner, ok := ret.Results[0].(*ssa.Call)
+	if !ok || core.StaticCalleeName(&inner.Call) != "strings.Split" {
+		return nil, false
+	}
+	for i, prm := range g.Params {
+		if inner.Call.Args[0] == ssa.Value(prm) && i < len(call.Call.Args) {
+			return call.Call.Args[i], true
+		}
+	}
+	return nil, false
 }
